@@ -23,16 +23,18 @@ Theorem C08_run : forall execdir budget ok es,
 Proof. exact run_spec. Qed.
 Print Assumptions C08_run.
 
-(* a batch within argmax's budget is a command line the kernel accepts (kernel model of ExecLimits.v,
-   validated by the execve prober): program, fixed arguments, batch; whatever the environment *)
+(* a batch within the budget MultiExecMatcher keeps (argmax's, less its own reserve) is a command line the kernel accepts
+   (kernel model of ExecLimits.v, validated by the execve prober): program, fixed arguments, batch; whatever the
+   environment, whatever file name within PATH_MAX the command is found under through PATH, and also when it is a "#!"
+   script (the kernel then pushes the name a second time and the interpreter line, at most 256 bytes) *)
 Theorem C08_budget_accepted : forall rl env prog fixed batch fn sb,
-  (argmax_args batch <= argmax_budget (kernel_limit rl) env prog fixed)%N ->
-  (0 < argmax_budget (kernel_limit rl) env prog fixed)%N \/ batch <> [] ->
+  (argmax_args batch <= find_budget (kernel_limit rl) env prog fixed)%N ->
+  batch <> [] ->
   Forall (fun len => (len <= argmax_single)%N) (prog :: fixed ++ batch) ->
   Forall (fun len => (len + 1 <= MAX_ARG_STRLEN)%N) (env_strings env) ->
-  (fn + 1 + sb <= 4096 + 2048)%N ->     (* argmax reserves one page and the POSIX headroom: a "#!" script with a long name goes beyond it (audits/TRIAGE.md D6) *)
+  (fn + 1 <= 4096)%N -> (sb <= 4096 + 256)%N ->
   kernel_accepts rl {| argv := prog :: fixed ++ batch; envp := env_strings env; fname := fn; shebang := sb |}.
-Proof. exact argmax_batch_accepted. Qed.
+Proof. exact find_batch_accepted. Qed.
 Print Assumptions C08_budget_accepted.
 
 (* CMD is only ever run on paths: no invocation consists of the fixed arguments alone - also when a path does not fit behind them *)
@@ -41,9 +43,22 @@ Theorem C08_no_empty_invocation : forall execdir budget ok es,
 Proof. exact run_never_empty. Qed.
 Print Assumptions C08_no_empty_invocation.
 
-(* non-vacuity: -execdir over d1/{a,b}, d2/{c}; budget for two paths per invocation *)
+(* "/" is run from "/" but is not one of the entries of "/": an entry that is its own directory is the only path of its
+   invocation, whether it comes before the entries of that directory or (-depth) after them *)
+Theorem C08_own_directory_alone : forall budget ok es,
+  Forall (fun e => eparent e <> None) es ->
+  Forall (fun r => forall e, In e (snd r) -> eown e = true -> snd r = [e]) (runs (ExecMulti.run true budget ok es)).
+Proof. intros budget ok es H. exact (own_dir_alone true budget ok es eq_refl H). Qed.
+Print Assumptions C08_own_directory_alone.
+
+(* non-vacuity: -execdir over d1/{a,b}, d2/{c}; budget for two paths per invocation; then "/" itself after two of its entries (-depth) *)
 Example C08_witness :
-  let mk i p := {| eid := i; ecost := 12; esingle := true; eparent := Some p; reached := true |} in
+  let mk i p := {| eid := i; ecost := 12; esingle := true; eparent := Some p; reached := true; eown := false |} in
+  let own i p := {| eid := i; ecost := 12; esingle := true; eparent := Some p; reached := true; eown := true |} in
   let s := run true 24 (fun i => negb (Nat.eqb i 1)) [mk 1%nat 1%nat; mk 2%nat 1%nat; mk 3%nat 1%nat; mk 4%nat 2%nat] in
-  map (fun r => (fst r, map eid (snd r))) (runs s) = [(Some 1, [1; 2]); (Some 1, [3]); (Some 2, [4])]%nat /\ failed s = true /\ cmd s = None.
+  map (fun r => (fst r, map eid (snd r))) (runs s) = [(Some 1, [1; 2]); (Some 1, [3]); (Some 2, [4])]%nat /\ failed s = true /\ cmd s = None
+  /\ map (fun r => (fst r, map eid (snd r))) (runs (run true 100 (fun _ => true) [mk 1%nat 1%nat; mk 2%nat 1%nat; own 3%nat 1%nat]))
+     = [(Some 1, [1; 2]); (Some 1, [3])]%nat
+  /\ map (fun r => (fst r, map eid (snd r))) (runs (run true 100 (fun _ => true) [own 3%nat 1%nat; mk 1%nat 1%nat; mk 2%nat 1%nat]))
+     = [(Some 1, [3]); (Some 1, [1; 2])]%nat.
 Proof. vm_compute. repeat split. Qed.
